@@ -429,6 +429,8 @@ def gen_callout(rng, u, must_fru=True):
         mru = dict(ids=[(rng.choice([0x48, 0x4D, 0x4C, rng.randrange(1 << 32)]),
                          rng.choice(pool_ids) if pool_ids else rng.randrange(1 << 32)) for _ in range(n)],
                    res=rng.choice([0, rng.randrange(1 << 32)]), hiflags=rng.choice([0, 0xF0, 0x10]))
+    if fru is None and rng.random() < 0.6:
+        pce = mru = None                 # a bare callout: flags, priority and (maybe) a location code, no substructure
     c = Callout(rng.randrange(256), rng.choice(list(tables.calloutPriorityValues) + [0, 0x20, 0x4E, 0xFF]), loc,
                 fru, pce, mru)
     if sum(x is not None for x in (fru, pce, mru)) >= 2 and rng.random() < 0.12:
@@ -493,7 +495,7 @@ def gen_src(rng, u, primary, creator, srctype=None, refcode=None, ncallouts=None
     flags = rng.randrange(256) & ~0x01
     if ncallouts is None:
         ncallouts = rng.choice([0, 0, 1, 1, 2, 3, 4, 6, 10])
-    callouts = [gen_callout(rng, u) for _ in range(ncallouts)]
+    callouts = [gen_callout(rng, u, must_fru=rng.random() > 0.1) for _ in range(ncallouts)]     # 10%: may be a bare callout
     if len(callouts) >= 2 and rng.random() < 0.15:
         callouts[rng.randrange(1, len(callouts))] = callouts[0]      # the same callout listed twice
     has_sub = ncallouts > 0 or rng.random() < 0.1
